@@ -1,6 +1,44 @@
-/-! `pmodel formula`: line-protocol driver (stub — replaced by the owner of this model). -/
-namespace Driver.Formula
+import PhreeqcVerif.Model.Util
+import PhreeqcVerif.Model.Formula
+import PhreeqcVerif.Model.NameDouble
+/-! `pmodel formula`: line-protocol driver of the formula-parser model.
 
-def run : IO Unit := IO.eprintln "pmodel formula: not implemented"
+```
+f <hex formula>     → F <ok 0|1> <hex unread rest> <hex name>:<num>/<den> …      (entries in reading order)
+c <hex formula>     → C <ok 0|1> <hex name>:<num>/<den> …                         (combined, key order: elt_list_combine)
+```
+-/
+namespace Driver.Formula
+open PhreeqcVerif PhreeqcVerif.Util PhreeqcVerif.Formula
+
+def ratStr (q : Rat) : String := s!"{q.num}/{q.den}"
+
+def entries (l : List (String × Rat)) : String :=
+  String.join (l.map fun p => s!" {hexStr p.1}:{ratStr p.2}")
+
+def handle (line : String) : String :=
+  match words line with
+  | ["f", h] =>
+    match unhexStr h with
+    | none => "F bad"
+    | some s =>
+      match elts (s.length + 1) 1 s.toList 0 with
+      | none => "F 0 -"
+      | some (l, r, _) => s!"F 1 {hexStr (String.ofList r)}{entries l}"
+  | ["c", h] =>
+    match unhexStr h with
+    | none => "C bad"
+    | some s =>
+      match parseFormula s with
+      | none => "C 0"
+      | some l => s!"C 1{entries (NameDouble.ofList l)}"
+  | _ => "?"
+
+def run : IO Unit := do
+  let stdin ← IO.getStdin
+  let lines ← readLines stdin
+  let out ← IO.getStdout
+  for l in lines do
+    if l.trimAscii.toString ≠ "" then out.putStrLn (handle l)
 
 end Driver.Formula
